@@ -18,7 +18,7 @@ type Engine struct{ T *testing.T }
 
 func (Engine) Name() string { return "provsim" }
 
-func (Engine) Properties() []string { return []string{"C10", "C13", "C14", "C15", "C20"} }
+func (Engine) Properties() []string { return []string{"C10", "C12", "C13", "C14", "C15", "C20"} }
 
 func (e Engine) Execute(r *core.Run) (v *core.Violation) {
 	var fn func(*core.Run) *core.Violation
@@ -29,6 +29,8 @@ func (e Engine) Execute(r *core.Run) (v *core.Violation) {
 		fn = runC15
 	case "C14":
 		fn = runC14
+	case "C12":
+		fn = runC12
 	case "C20", "C10":
 		fn = runC20
 	default:
@@ -71,6 +73,15 @@ func (Engine) Describe(property string) core.Description {
 		d.RequiredProbes = []string{"probe:event-while-call-in-flight", "probe:event-during-Cluster.Reserve", "probe:event-during-Tx.Broadcast", "probe:event-during-Query.Group",
 			"probe:event-during-Pricing.CalculatePrice", "probe:lease-won-announced", "probe:reservation-obligation", "probe:bid-obligation", "probe:catchup-found-existing-bid",
 			"probe:price-above-max", "fault:provider-crash-restart", "fault:fail-Cluster.Reserve", "fault:fail-Tx.Broadcast", "fault:fail-Query.Group", "fault:fail-Pricing.CalculatePrice", "fault:event-lost"}
+	case "C12":
+		d.Rule = "Each run starts the real cluster.NewService (inventoryService reached through Service.Reserve/Unreserve/Status) with per-run commit levels (unset,1,1.5,2,10) and external-port quantity; 12-46 stimuli, one per quiescent point: " +
+			"Reserve (1-3 resource units, counts 1-3, 0-2 endpoints; sometimes a second one for the same order), Unreserve, Status, completion ok (1-4 nodes with drawn capacities) or error of the parked Inventory call, " +
+			"ClusterDeployment deployed/pending events, clock jumps (poll timer)."
+		d.Real = append(d.Real, "provider/cluster service + inventoryService + reservation", "types.ResourceUnits arithmetic", "cluster/util.ComputeCommittedResources")
+		d.Stub = []string{"cluster.Client.Inventory (parked, node capacities drawn at completion)"}
+		d.RequiredProbes = []string{"probe:reserve-granted", "probe:reserve-refused", "probe:grant-with-other-pending-reservations", "probe:repeated-status-of-multi-unit-reservation",
+			"probe:deployment-status-event", "probe:reserve-while-inventory-in-flight", "fault:inventory-error"}
+		d.Assumptions = append(d.Assumptions, "commit-level scaling is checked in its weakest reading (floor(v/level), at least 1); the packing search is exact up to a node budget (exhaustions counted, never reported)")
 	case "C14":
 		d.Rule = "Each run starts the real cluster.NewService (service loop, inventory, hostname service, deployment managers, monitors, withdrawal) over a real bus with a scripted cluster client whose Deploy/TeardownLease/" +
 			"Inventory/LeaseStatus calls park until the seeded scheduler completes or fails them; 1-2 leases; 10-44 stimuli, one per quiescent point: ManifestReceived (first and updates), EventLeaseClosed, completion ok/error of any parked call, " +
